@@ -224,6 +224,10 @@ func main() {
 	hubCorpus(heavy)
 	bkOverflow(heavy, scratch, true)
 	bkOverflow(heavy, scratch, false)
+	for _, l := range []int{1, 3} {
+		bkWindow(light, scratch, "seq.before_cache", l)
+		bkWindow(light, scratch, "seq.before_broadcast", l)
+	}
 	ringCases(light, rnd.Fork(), args.Tier)
 	hubCases(light, rnd.Fork(), args.Tier)
 	nb := 10
@@ -238,6 +242,9 @@ func main() {
 		for _, l := range []int{1, 2, 3, 5, 8} {
 			bkScenario(light, br, l, scratch, 3, seq)
 			seq++
+		}
+		for _, l := range []int{2, 8} {
+			bkMulti(light, br, scratch, l)
 		}
 	}
 	// heavy cases go to positions 0, perShard, 2*perShard, ...
